@@ -1,26 +1,32 @@
 #!/bin/bash
 # usage: tools/seeded_matrix.sh [id-prefix ...]
-# Applies every kept seeded change to /repo in turn (git apply; undone straight
-# afterwards), runs the quick check of its property (and the thorough one when
-# quick misses it), and records the outcome in seeded/<id>/meta.json and
-# seeded/MATRIX.md.  /repo is left clean.
+# Applies every kept seeded change in turn to a scratch worktree of /repo's HEAD
+# (under /tmp, removed at the end), points the quick check of its property at
+# that worktree (and the thorough one when quick misses it) with evidence and
+# replay files redirected to a scratch directory, and records the outcome in
+# seeded/<id>/meta.json and seeded/MATRIX.md.  /repo and /verif/evidence are
+# not touched.
 set -u
 cd /verif
 sel="${*:-}"
+WT=/tmp/matrix_wt; OUT=/tmp/matrix_out
+git -C /repo worktree remove --force $WT >/dev/null 2>&1; rm -rf $WT $OUT
+git -C /repo worktree add --detach $WT HEAD >/dev/null 2>&1 || { echo "cannot create scratch worktree"; exit 2; }
+export SYMGO_SCRATCH_OUT=$OUT
 out=seeded/MATRIX.tmp
 : > $out
 for d in seeded/C*-m*; do
   id=$(basename $d); prop=${id%%-*}
   if [ -n "$sel" ]; then ok=0; for s in $sel; do case $id in $s*) ok=1;; esac; done; [ $ok = 1 ] || continue; fi
-  git -C /repo checkout HEAD -- . >/dev/null 2>&1
-  if ! git -C /repo apply --3way $PWD/$d/patch.diff >/dev/null 2>&1 && ! git -C /repo apply $PWD/$d/patch.diff >/dev/null 2>&1; then
-    git -C /repo reset -q --hard HEAD
+  git -C $WT reset -q --hard HEAD; git -C $WT clean -fdq
+  if ! git -C $WT apply --3way $PWD/$d/patch.diff >/dev/null 2>&1 && ! git -C $WT apply $PWD/$d/patch.diff >/dev/null 2>&1; then
+    git -C $WT reset -q --hard HEAD
     echo "$id|does not apply on the current tree (the code it changed was since repaired)|-" >> $out; continue
   fi
   tier=quick
-  log=$(./check $prop 2>&1); rc=$?
-  if [ $rc -eq 0 ]; then tier=thorough; log=$(./check $prop --tier thorough 2>&1); rc=$?; fi
-  git -C /repo reset -q --hard HEAD
+  log=$(./check $prop -repo $WT 2>&1); rc=$?
+  if [ $rc -eq 0 ]; then tier=thorough; log=$(./check $prop --tier thorough -repo $WT 2>&1); rc=$?; fi
+  git -C $WT reset -q --hard HEAD
   labels=$(echo "$log" | grep -A1 '^VIOLATION' | grep 'harness=' | sed 's/^ *//' | sort -u | head -3 | tr '\n' ';')
   case $rc in
     1) res="caught ($tier): $labels";;
@@ -34,7 +40,7 @@ m=json.load(open(sys.argv[1])); m['detected_by']=sys.argv[2]; json.dump(m,open(s
 PY
   echo "$id -> $res"
 done
-git -C /repo status --short
+git -C /repo worktree remove --force $WT; rm -rf $OUT
 { echo "| seeded change | outcome of ./check <property> |"; echo "|---|---|"; sort $out | awk -F'|' '{print "| "$1" | "$2" |"}'; } > seeded/MATRIX.new
 if [ -z "$sel" ]; then mv seeded/MATRIX.new seeded/MATRIX.md; else cat seeded/MATRIX.new; fi
 rm -f $out seeded/MATRIX.new
